@@ -270,6 +270,130 @@ Section Slurp.
               | (_, i') => ([OErr], i')
               end
     end.
+
+  (* ---- programs that consume PART of the shared iterator through a laziness construct and then go on
+     (the number of items each construct pulls is part of the property: input/inputs deliver every
+     value exactly once).  Transcribed from builtin.jq:
+       limit($n; g)  = label $out | foreach g as $item ($n; . - 1; $item, if . <= 0 then break $out else empty end)
+                       ($n = 0: empty): pulls exactly n items
+       first(g)      = label $out | g | ., break $out            : pulls one item
+       isempty(g)    = label $out | (g | false, break $out), true : pulls one item
+       until(c; f)   = def _until: if c then . else f | _until end : one item per round
+       repeat(input) : one item per round, the error "break" at the end is NOT caught *)
+  Inductive stage :=
+  | StTake (k : nat)        (* [limit(k; inputs)] *)
+  | StRest                  (* [inputs] *)
+  | StFirst                 (* first(inputs)   and   (label $o | inputs | ., break $o) *)
+  | StTakeRepeat (k : nat)  (* [limit(k; repeat(input))] *)
+  | StInput                 (* input *)
+  | StIsEmpty               (* isempty(inputs) *)
+  | StReduceCount (k : nat) (* reduce limit(k; inputs) as $x (0; . + 1) *)
+  | StForeach (k : nat)     (* [foreach limit(k; inputs) as $x (0; . + 1; [., $x])] *)
+  | StInputFilter           (* (input as $a | [inputs | select(type == ($a | type))]) *)
+  | StUntil.                (* (null | until(. != null; input)) *)
+
+  (* limit(k; g) over g = inputs (brk = false: the end of the input ends g) or g = repeat(input)
+     (brk = true: the end of the input is the uncaught error "break") *)
+  Fixpoint take_loop (brk : bool) (k : nat) (i : I) (vs : list value) : option (list value) * I :=
+    match k with
+    | O => (Some vs, i)
+    | S k' => match func_input i with
+              | (InVal v, i') => take_loop brk k' i' (vs ++ [v])
+              | (InBreak, i') => (if brk then None else Some vs, i')
+              | (InErr, i') => (None, i')
+              end
+    end.
+
+  Inductive vtype := TNull | TBool | TNumber | TString | TArray | TObject.
+  Definition type_of (v : value) : vtype :=
+    match v with
+    | VS SNull => TNull | VS STrue | VS SFalse => TBool | VS (SNum _) => TNumber | VS (SStr _) => TString
+    | VArr _ => TArray | VObj _ => TObject
+    end.
+  Definition vtype_eqb (a b : vtype) : bool :=
+    match a, b with
+    | TNull, TNull | TBool, TBool | TNumber, TNumber | TString, TString | TArray, TArray | TObject, TObject => true
+    | _, _ => false
+    end.
+
+  Definition vnat (n : nat) : value := VS (SNum (print_N (N.of_nat n))).
+  Fixpoint numbered (n : nat) (vs : list value) : list value :=
+    match vs with [] => [] | v :: r => varr [vnat n; v] :: numbered (S n) r end.
+
+  Fixpoint until_loop (fuel : nat) (i : I) : option (option value * I) :=
+    match fuel with
+    | O => None
+    | S f => match func_input i with
+             | (InVal (VS SNull), i') => until_loop f i'
+             | (InVal v, i') => Some (Some v, i')
+             | (_, i') => Some (None, i')
+             end
+    end.
+
+  (* what the stage prints (None = it fails with an error) and the iterator afterwards *)
+  Definition run_stage (fuel : nat) (st : stage) (i : I) : option (list value) * I :=
+    match st with
+    | StTake k => let (r, i') := take_loop false k i [] in (option_map (fun vs => [varr vs]) r, i')
+    | StTakeRepeat k => let (r, i') := take_loop true k i [] in (option_map (fun vs => [varr vs]) r, i')
+    | StReduceCount k => let (r, i') := take_loop false k i [] in (option_map (fun vs => [vnat (List.length vs)]) r, i')
+    | StForeach k => let (r, i') := take_loop false k i [] in (option_map (fun vs => [varr (numbered 1 vs)]) r, i')
+    | StRest => match inputs_loop fuel i [] with
+                | Some (Some vs, i') => (Some [varr vs], i')
+                | Some (None, i') => (None, i')
+                | None => (None, i)
+                end
+    | StFirst => match func_input i with
+                 | (InVal v, i') => (Some [v], i')
+                 | (InBreak, i') => (Some [], i')
+                 | (InErr, i') => (None, i')
+                 end
+    | StInput => match func_input i with
+                 | (InVal v, i') => (Some [v], i')
+                 | (_, i') => (None, i')
+                 end
+    | StIsEmpty => match func_input i with
+                   | (InVal _, i') => (Some [VS SFalse], i')
+                   | (InBreak, i') => (Some [VS STrue], i')
+                   | (InErr, i') => (None, i')
+                   end
+    | StInputFilter =>
+        match func_input i with
+        | (InVal a, i') =>
+            match inputs_loop fuel i' [] with
+            | Some (Some vs, i'') => (Some [varr (filter (fun v => vtype_eqb (type_of v) (type_of a)) vs)], i'')
+            | Some (None, i'') => (None, i'')
+            | None => (None, i')
+            end
+        | (_, i') => (None, i')
+        end
+    | StUntil => match until_loop fuel i with
+                 | Some (Some v, i') => (Some [v], i')
+                 | Some (None, i') => (None, i')
+                 | None => (None, i)
+                 end
+    end.
+
+  (* st1, st2, … : the outputs in order; the first failing stage ends the query with one error *)
+  Fixpoint run_prog (fuel : nat) (sts : list stage) (i : I) : list out * I :=
+    match sts with
+    | [] => ([], i)
+    | st :: r => match run_stage fuel st i with
+                 | (Some vs, i') => let (o, i'') := run_prog fuel r i' in (map OVal vs ++ o, i'')
+                 | (None, i') => ([OErr], i')
+                 end
+    end.
+  Definition q_prog (fuel : nat) (sts : list stage) : query := fun _ i => run_prog fuel sts i.
+
+  (* [.[]?, input] without -n: the elements of the main value, then the next value *)
+  Fixpoint vlist_to_list (l : vlist) : list value := match l with VNil => [] | VCons v r => v :: vlist_to_list r end.
+  Fixpoint mlist_values (m : mlist) : list value := match m with MNil => [] | MCons _ v r => v :: mlist_values r end.
+  Definition iter_values (v : value) : list value :=
+    match v with VArr l => vlist_to_list l | VObj m => mlist_values m | VS _ => [] end.
+  Definition q_iter_input : query := fun v i =>
+    match func_input i with
+    | (InVal w, i') => ([OVal (varr (iter_values v ++ [w]))], i')
+    | (_, i') => ([OErr], i')
+    end.
 End Slurp.
 
 (* ---- createInputIter ------------------------------------------------------------------------ *)
